@@ -44,7 +44,9 @@ def build_driver(flavor='plain', repo=None, main='driver.cpp', extra_flags=(), l
     if os.path.exists(exe):
         os.utime(outdir, None)
         return exe
-    os.makedirs(outdir, exist_ok=True)
+    final_dir, final_exe = outdir, exe
+    outdir = outdir + '.tmp%d' % os.getpid(); exe = os.path.join(outdir, 'driver')     # built aside, published by one rename
+    shutil.rmtree(outdir, ignore_errors=True); os.makedirs(outdir)
     def cc(src):
         obj = os.path.join(outdir, os.path.basename(src) + '.o')
         r = sh(['g++'] + flags + ['-c', src, '-o', obj])
@@ -61,11 +63,19 @@ def build_driver(flavor='plain', repo=None, main='driver.cpp', extra_flags=(), l
         shutil.rmtree(outdir, ignore_errors=True)
         raise RuntimeError('link failed\n' + r.stdout[-3000:])
     os.rename(exe + '.tmp', exe)
+    _publish(outdir, final_dir)
     _prune(os.path.join(BUILD, 'cxx'), keep=10)
-    return exe
+    return final_exe
+
+def _publish(tmp, outdir):
+    """move a finished build directory into place; if another process got there first, keep its build"""
+    try:
+        os.rename(tmp, outdir)
+    except OSError:
+        shutil.rmtree(tmp, ignore_errors=True)
 
 def _prune(d, keep):
-    ents = [os.path.join(d, e) for e in os.listdir(d)]
+    ents = [os.path.join(d, e) for e in os.listdir(d) if '.tmp' not in e]
     ents.sort(key=lambda p: os.path.getmtime(p), reverse=True)
     for p in ents[keep:]:
         shutil.rmtree(p, ignore_errors=True)
@@ -100,7 +110,9 @@ def build_model():
         return exe
     ok, log = build_coq(['Extract.vo'])
     # Extract.vo's side effect (model.ml) lands in coq/: re-run extraction in the out dir
-    os.makedirs(outdir, exist_ok=True)
+    final_dir, final_exe = outdir, exe
+    outdir = outdir + '.tmp%d' % os.getpid(); exe = os.path.join(outdir, 'model_main')
+    shutil.rmtree(outdir, ignore_errors=True); os.makedirs(outdir)
     r = sh(['timeout', '600', 'coqc', '-Q', COQ, 'EZ', os.path.join(COQ, 'Extract.v'), '-o', os.path.join(outdir, 'Extract.vo')], cwd=outdir)
     if r.returncode != 0 or not os.path.exists(os.path.join(outdir, 'model.ml')):
         shutil.rmtree(outdir, ignore_errors=True)
@@ -110,8 +122,9 @@ def build_model():
     if r.returncode != 0:
         shutil.rmtree(outdir, ignore_errors=True)
         raise RuntimeError('ocaml build failed\n' + r.stdout[-3000:])
+    _publish(outdir, final_dir)
     _prune(os.path.join(BUILD, 'model'), keep=3)
-    return exe
+    return final_exe
 
 def build_modelx():
     """The model plus the decision predicates of Proofs_Decide.v (ExtractX.v: needs the whole proof chain of C01).
@@ -125,7 +138,9 @@ def build_modelx():
         os.utime(outdir, None)
         return exe
     ok, log = build_coq(['ExtractX.vo'])
-    os.makedirs(outdir, exist_ok=True)
+    final_dir, final_exe = outdir, exe
+    outdir = outdir + '.tmp%d' % os.getpid(); exe = os.path.join(outdir, 'model_main')
+    shutil.rmtree(outdir, ignore_errors=True); os.makedirs(outdir)
     r = sh(['timeout', '600', 'coqc', '-Q', COQ, 'EZ', os.path.join(COQ, 'ExtractX.v'), '-o', os.path.join(outdir, 'ExtractX.vo')], cwd=outdir)
     if r.returncode != 0 or not os.path.exists(os.path.join(outdir, 'modelx.ml')):
         shutil.rmtree(outdir, ignore_errors=True)
@@ -141,8 +156,9 @@ def build_modelx():
     if r.returncode != 0:
         shutil.rmtree(outdir, ignore_errors=True)
         raise RuntimeError('ocaml build failed\n' + r.stdout[-3000:])
+    _publish(outdir, final_dir)
     _prune(os.path.join(BUILD, 'modelx'), keep=3)
-    return exe
+    return final_exe
 
 if __name__ == '__main__':
     t = time.time()
